@@ -117,6 +117,24 @@ def scalar_none_bool_str_roundtrip__kf_F_C14_1(v: Union[None, bool, str]) -> boo
 
 
 
+def scalar_keyword_like_strings_roundtrip(i: int) -> bool:
+    """
+    pre: 0 <= i < 16
+    post: _
+    """
+    words = ["Inf", "INF", "-Inf", "iNf", "inf ", " inf", "+inf", "nan", "NaN", "None", "none", "true", "True", "false", "1e5", "0x10"]
+    return _rt(words[i])
+
+def scalar_keyword_like_strings_roundtrip__reach(i: int) -> bool:
+    """
+    pre: 0 <= i < 16
+    post: False
+    """
+    words = ["Inf", "INF", "-Inf", "iNf", "inf ", " inf", "+inf", "nan", "NaN", "None", "none", "true", "True", "false", "1e5", "0x10"]
+    return _rt(words[i])
+
+
+
 def scalar_int_roundtrip(v: int) -> bool:
     """
     post: _
